@@ -39,6 +39,8 @@ FLOORS["quick"].update({'sync_acks_inside_fast_retransmit': 500, 'timeouts_after
 FLOORS["thorough"].update({'sync_acks_inside_fast_retransmit': 2500, 'timeouts_after_finish_time': 2000})
 FLOORS["quick"].update({'other_mss_cases': 50})
 FLOORS["thorough"].update({'other_mss_cases': 250})
+FLOORS["quick"].update({'new_acks_triggered_above_a_hole': 800})
+FLOORS["thorough"].update({'new_acks_triggered_above_a_hole': 4000})
 MSS = 512
 
 
